@@ -243,4 +243,164 @@ theorem fromBytes_frame (hb : Nat) (addr tail : Bytes) (L : Nat)
         rw [this]
 
 
+/-! ## serialise / parse -/
+
+/-- shape of every successful serialisation (no hypothesis on the message) -/
+theorem asBytes_shape (p : Msg) (bs : Bytes) (h : asBytes p = .ok bs) :
+    ∃ more b hb, body p = .ok (more, b) ∧ headerByte { p.header with more := more } = .ok hb ∧
+      p.address.length ≤ 255 ∧ p.address.length + b.length + 2 < 65536 ∧
+      bs = (p.address.length + b.length + 2) / 256 :: (p.address.length + b.length + 2) % 256 :: hb
+            :: p.address.length :: (p.address ++ b) := by
+  unfold asBytes at h
+  split at h
+  · cases h
+  · rename_i hlen
+    cases hb : body p with
+    | error e => rw [hb] at h; cases h
+    | ok r =>
+      obtain ⟨more, b⟩ := r
+      rw [hb] at h
+      simp only [] at h
+      split at h
+      · cases h
+      · rename_i h16
+        cases hh : headerByte { p.header with more := more } with
+        | error e => rw [hh] at h; cases h
+        | ok hbyte =>
+          rw [hh] at h
+          simp only [] at h
+          injection h with h
+          refine ⟨more, b, hbyte, rfl, hh, by omega, ?_, ?_⟩
+          · simp at h16; omega
+          · rw [← h]; simp
+
+
+/-- the optional part written by `as_bytes` is read back by `from_bytes` as the normal form -/
+theorem parseTail_body (p : Msg) (hwf : wf p = true) :
+    ∃ more b, body p = .ok (more, b) ∧ b.length ≤ 65002 ∧
+      parseTail { p.header with more := more, reserved := p.header.reserved || p.header.ptype == .text }
+        p.address b = .ok (norm p) := by
+  obtain ⟨⟨hm, ha, hr, t⟩, addr, cap, seq, enc, msg⟩ := p
+  cases t with
+  | availability =>
+    cases cap with
+    | none => exact ⟨false, [], rfl, by simp, by simp [parseTail, norm]⟩
+    | some c =>
+      have hc : Gen.Tms.capabilityVal.contains c = true := by
+        simp only [wf, Bool.and_eq_true] at hwf; exact hwf.2
+      obtain ⟨c4, cc⟩ := cap_code hc
+      refine ⟨true, [c], ?_, by simp, ?_⟩
+      · simp only [body]; rw [if_neg (by omega)]
+      · simp [parseTail, norm, Nat.mod_eq_of_lt c4, cc]
+  | ack =>
+    cases seq with
+    | none =>
+      have he : enc = none := by
+        simp only [wf, Bool.and_eq_true] at hwf
+        simpa using hwf.2
+      subst he
+      exact ⟨false, [], rfl, by simp, by simp [parseTail, norm, normEnc, hasEnc]⟩
+    | some sn =>
+      have hs : sn ≤ 127 := by
+        simp only [wf, Bool.and_eq_true] at hwf
+        simpa using hwf.2
+      obtain ⟨bs, h1, h2, h3⟩ := sn_roundtrip sn enc hs []
+      refine ⟨true, bs, ?_, by omega, ?_⟩
+      · simp [body, h1]
+      · rw [List.append_nil] at h3
+        simp [parseTail, norm, h3]
+  | text =>
+    cases seq with
+    | none => simp [wf] at hwf
+    | some sn =>
+      cases msg with
+      | none => simp [wf] at hwf
+      | some m =>
+        have hs : sn ≤ 127 ∧ m.length ≤ 65000 := by
+          simp only [wf, Bool.and_eq_true] at hwf
+          simpa using hwf.2
+        obtain ⟨bs, h1, h2, h3⟩ := sn_roundtrip sn enc hs.1 m
+        refine ⟨true, bs ++ m, ?_, by simp; omega, ?_⟩
+        · simp [body, h1]
+        · simp [parseTail, norm, h3]
+
+
+theorem headerByte_ok (h : FirstHeader) : ∃ b, headerByte h = .ok b := by
+  unfold headerByte
+  rw [if_neg (by have := ptype_lt h.ptype; omega)]
+  exact ⟨_, rfl⟩
+
+/-- in-range messages always serialise -/
+theorem asBytes_total (p : Msg) (hwf : wf p = true) : ∃ bs, asBytes p = .ok bs := by
+  obtain ⟨more, b, hb, hlen, -⟩ := parseTail_body p hwf
+  obtain ⟨hbyte, hh⟩ := headerByte_ok { p.header with more := more }
+  have ha : p.address.length ≤ 255 := by
+    simp only [wf, Bool.and_eq_true] at hwf; simpa using hwf.1
+  unfold asBytes
+  rw [if_neg (by omega), hb]
+  simp only []
+  rw [if_neg (by simp; omega), hh]
+  exact ⟨_, rfl⟩
+
+/-- decode ∘ encode = norm -/
+theorem dec_enc (p : Msg) (hwf : wf p = true) (bs : Bytes) (h : asBytes p = .ok bs) :
+    fromBytes bs = .ok (norm p) := by
+  obtain ⟨more, b, hbyte, hb, hh, -, -, rfl⟩ := asBytes_shape p bs h
+  obtain ⟨more', b', hb', -, hp⟩ := parseTail_body p hwf
+  rw [hb] at hb'
+  injection hb' with hb'
+  injection hb' with h1 h2
+  subst h1 h2
+  rw [fromBytes_frame _ _ _ _ rfl, (header_roundtrip _ _ hh).1]
+  exact hp
+
+
+theorem hasEnc_normEnc (e : Option Encoding) : hasEnc (normEnc e) = hasEnc e := by
+  unfold normEnc
+  cases h : hasEnc e <;> simp [hasEnc]
+
+theorem normEnc_idem (e : Option Encoding) : normEnc (normEnc e) = normEnc e := by
+  unfold normEnc
+  rw [show hasEnc (if hasEnc e = true then some Encoding.ucs2le else none) = hasEnc e from hasEnc_normEnc e]
+
+theorem encodeSn_normEnc (s : Option Nat) (e : Option Encoding) :
+    encodeSn s (normEnc e) = encodeSn s e := by
+  unfold encodeSn
+  rw [hasEnc_normEnc]
+
+theorem norm_idem (p : Msg) : norm (norm p) = norm p := by
+  obtain ⟨⟨hm, ha, hr, t⟩, addr, cap, seq, enc, msg⟩ := p
+  cases t <;> simp [norm, normEnc_idem]
+
+theorem wf_norm (p : Msg) (hwf : wf p = true) : wf (norm p) = true := by
+  obtain ⟨⟨hm, ha, hr, t⟩, addr, cap, seq, enc, msg⟩ := p
+  cases t with
+  | availability => simp only [wf, norm] at hwf ⊢; exact hwf
+  | ack =>
+    cases seq with
+    | none =>
+      have he : enc = none := by
+        simp only [wf, Bool.and_eq_true] at hwf
+        simpa using hwf.2
+      subst he
+      simp only [wf, norm] at hwf ⊢; exact hwf
+    | some sn => simp only [wf, norm] at hwf ⊢; exact hwf
+  | text => simp only [wf, norm] at hwf ⊢; exact hwf
+
+/-- encode ∘ norm = encode: the normal form serialises to the same octets -/
+theorem reencode (p : Msg) (hwf : wf p = true) : asBytes (norm p) = asBytes p := by
+  obtain ⟨⟨hm, ha, hr, t⟩, addr, cap, seq, enc, msg⟩ := p
+  cases t with
+  | availability => simp [asBytes, body, norm, headerByte]
+  | ack =>
+    cases seq with
+    | none =>
+      have he : enc = none := by
+        simp only [wf, Bool.and_eq_true] at hwf
+        simpa using hwf.2
+      subst he
+      simp [asBytes, body, norm, headerByte, normEnc, hasEnc]
+    | some sn => simp [asBytes, body, norm, headerByte, encodeSn_normEnc]
+  | text => simp [asBytes, body, norm, headerByte, encodeSn_normEnc]
+
 end Dmr.Tms
